@@ -179,7 +179,9 @@ CLAIMED["C10"] = dict(
     text="Proof per member of an enumerated damage family (fault enumeration over symbolic content): the real writers produce a 2-molecule mol2 / 2-frame "
          "xyz text with symbolic name, labels, coordinates and charges; for every line-level damage (truncation at each line boundary, "
          "deletion or duplication of each single line) the real readers either raise or return complete molecules, each with the "
-         "declared atom and bond counts and the content of the corresponding undamaged molecule -- proved for all contents.",
+         "declared atom and bond counts and the content of the corresponding undamaged molecule -- proved for all contents. "
+         "Same for every single-token corruption of the first molecule's lines (each whitespace-separated token replaced by a foreign "
+         "symbol, by a bare integer where the field is not numeric, and by a malformed number), mol2 and xyz.",
     ref="DESIGN.md section 3 C10, section 4",
     note="Damage family at line granularity over one file shape; structured-string model and text codecs as in C07/C08; names/labels "
          "that are themselves numbers or start with '#'/'@' are excluded by precondition; NOT decided: termination on arbitrary text, "
@@ -203,7 +205,7 @@ CLAIMED["C15"] = dict(
          "bonded_valence (= sum of Bond.order over symbolic bond types) / lookup_bond agree with the bond list; _node_match is exactly "
          "element compatibility (Unknown matches any) for an unconstrained pattern atom, _edge_match accepts every bond for an "
          "unconstrained pattern bond; match passes (molecule, pattern) and both predicates to the matcher, inverts each mapping, and "
-         "get_substr_indices lists images in pattern-atom order. Exhaustive through the VC engine over every labelled graph on 4 atoms: "
+         "get_substr_indices lists images in pattern-atom order. Exhaustive through the VC engine over every labelled graph on 4 atoms and on six named graphs of 5-8 atoms (5- and 6-rings, chorded ring with tail, fused rings, spiro rings with a path, branched tree of depth 3; every start, direction and bond): "
          "yield_bfsd/yield_bfs yield exactly the reachable atoms once each with true shortest distances in non-decreasing order (with and "
          "without direction), is_bond_in_ring iff the bond is not a bridge. Bounded stand-in (NOT counted as proved): all graphs on <= 5 "
          "atoms and brute-force induced-embedding search on the real code under CPython.",
